@@ -28,6 +28,17 @@ import Frp.Props.C16
       ASCII hosts; strings.ToLower is not modelled beyond ASCII, there the implementation's answer is accepted;
     * `ptear <plugin> <mux> <hold> <n>`: `UserIn.prun` with the Close method of that plugin as the regenerated facts have it,
       n active requests, four turns of the worker: `done` iff it reaches the next login.
+    * `ssh <gw> <auth> <item>…` (one hostile ssh client on the ssh tunnel gateway): the items are turned into
+      `SshGw.Ev` and run on `SshGw.step` with the arithmetic of `end` AS THE SOURCE HAS IT (`C16.sshExecArith`,
+      regenerated): if a request of the script makes the loop body of handleNewChannel panic, frps dies — certainly when
+      the gateway cannot have closed the connection before (it does so once it has a forward address AND an exec
+      payload), possibly otherwise; everything else the gateway answers (`s:…`) is accepted;
+    * `ostorm`: concurrent logins / pings / work connections through the ONE verifier of a frps with auth.method = oidc: `done`
+      (`C16.map_census_closed`, `auth_field_writes_pinned`: no map of the verifier is written at run time);
+    * `maxports <variant>`: a session refused for max_ports_per_client goes on (CloseProxy, NewProxy, Ping), drops and
+      logs in again with its run id: `done` — `LockBal.run` with lock-balanced functions (regenerated `Gen.LockBalance`);
+    * `sstorm`: the same from several clients at once, scripts drawn in the child: with the wrapping arithmetic the
+      panic is an allowed outcome.
   The property predicate `C16.holdsOn` is evaluated on the implementation's own observation: any
   crash / hang / failed watchdog is `prop=FAILS`, whether or not the model predicted it.
 -/
@@ -134,6 +145,58 @@ def canonModel (h : String) (impl : String) : Option String :=
       some (match Host.canonicalHost hb with | none => "err" | some x => hx x)
     else some impl
 
+def crashSshExec : String := "crash:range@pkg/ssh.(*TunnelServer).handleNewChannel"
+
+/-- one item of an `ssh` script: `none` = malformed, `some none` = nothing the gateway's request loops see -/
+def sshItem (it : String) : Option (Option SshGw.Ev) :=
+  match it.splitOn "." with
+  | ["d"] => some (some .disconnect)
+  | ["g", t, _, p] => match unhx t, unhx p with
+    | some tb, some pb => some (some (.global tb pb))
+    | _, _ => none
+  | ["c", t, _] => (unhx t).map (fun tb => some (.openCh tb))
+  | ["r", k, t, _, p] => match k.toNat?, unhx t, unhx p with
+    | some kk, some tb, some pb => some (some (.chanReq kk tb pb 0))
+    | _, _, _ => none
+  | ["w", _, _] => some none
+  | ["k", k] => k.toNat?.map (fun kk => some (.closeCh kk))
+  | _ => none
+
+def sshEvents : List String → Option (List SshGw.Ev)
+  | [] => some []
+  | it :: rest =>
+    match sshItem it, sshEvents rest with
+    | some (some e), some es => some (e :: es)
+    | some none, some es => some es
+    | _, _ => none
+
+/-- does the gateway let this client in: gateway `a` has no authorizedKeysFile (NoClientAuth), `b` knows one key -/
+def sshLetIn (gw auth : String) : Bool :=
+  if auth.startsWith "raw." then false
+  else if gw = "a" then auth = "none" || auth = "key" || auth = "badkey"
+  else auth = "key"
+
+/-- the first event at which the process dies, with: did the gateway have both halves (forward address and exec payload)
+    before it — then it may have closed the connection on its own in the meantime -/
+def sshFirstDeath (t : UserIn.NumT) : SshGw.Conn → List SshGw.Ev → Option Bool
+  | _, [] => none
+  | c, e :: es =>
+    match SshGw.step t (c, .alive) e with
+    | (_, .processDies) => some (c.addr.isSome && c.extra.isSome)
+    | (c', .alive) => sshFirstDeath t c' es
+
+def sshModel (gw auth : String) (items : List String) (impl : String) : Option String :=
+  match sshEvents items with
+  | none => none
+  | some evs =>
+    let accept := if impl.startsWith "s:" then impl else "s:"
+    if !sshLetIn gw auth then some accept
+    else
+      match sshFirstDeath C16.sshExecArith {} evs with
+      | none => some accept
+      | some false => some crashSshExec
+      | some true => if impl = crashSshExec then some impl else some accept
+
 /-- the model's result; for the relational ops the implementation's result is accepted if allowed -/
 def modelOf (tok : List String) (impl : String) : Option String :=
   match tok with
@@ -192,6 +255,17 @@ def modelOf (tok : List String) (impl : String) : Option String :=
     match n.toNat? with
     | none => none
     | some k => some (ptearModel plugin mux k)
+  | "ssh" :: gw :: auth :: items => sshModel gw auth items impl
+  | ["sstorm", _, _, _] =>
+    if C16.sshExecArith = .u32 && impl = crashSshExec then some impl else some "done"
+  | ["ostorm", _, _, _] =>
+    -- auth.method = oidc: the verifier's fields are not maps (`C16.auth_field_writes_pinned`) and every map written at run
+    -- time is a judged table (`C16.map_census_closed`): `done`
+    some "done"
+  | ["maxports", _, _] =>
+    -- with every function lock-balanced (regenerated, `C16.lock_balance`) the session handles everything and is torn
+    -- down (`C16.session_handles_all`, `session_teardown_closes`): `done`; with an open leak a stall is an allowed outcome
+    if !C16.lockLeaksOpen.isEmpty && impl.startsWith "fail:maxports" then some impl else some "done"
   | ["watch"] => some "ok"
   | ["stat"] => if impl.startsWith "stat:" then some impl else some "stat:"
   | ["race6", _] =>
